@@ -134,17 +134,19 @@ Qed.
 
 Section Top.
 Variable teq : tenv -> sty -> sty -> Prop.
-Hypothesis Heq : forall D, genv D -> forall s t, good D s -> good D t -> equal_type D s t = Ok true -> teq D s t.
+Hypothesis Heq : forall D, sanity_typedefs D = Ok true -> env_syn D = true -> forall s t, good D s -> good D t -> equal_type D s t = Ok true -> teq D s t.
 Hypothesis Hrefl : forall D t, teq D t t.
 Hypothesis Hsym : forall D s t, teq D s t -> teq D t s.
 Hypothesis Htrans : forall D s t u, teq D s t -> teq D t u -> teq D s u.
-Hypothesis Hunf : forall D, genv D -> forall t h, good D t -> Typing.head D t h -> teq D h t.
+Hypothesis Hunf : forall D, sanity_typedefs D = Ok true -> env_syn D = true -> forall t h, good D t -> Typing.head D t h -> teq D h t.
 
 Section Decls.
 Variable D : tenv.
 Variable Sg : sigma.
 Variable F : list fundef.
-Hypothesis HD : genv D.
+Hypothesis SD : sanity_typedefs D = Ok true.
+Hypothesis SE : env_syn D = true.
+Let HD : genv D := genv_intro _ SD SE.
 Hypothesis HSg : gsigma D Sg.
 Hypothesis HSgw : wf_sigma D Sg.
 Hypothesis HF : forall fn sg, sig_lookup Sg fn = Some sg ->
@@ -158,7 +160,7 @@ Lemma form_static g A f f' rs :
   typed D F (teq D) ∅ (ctx_map g) None rs A f'.
 Proof.
   intros Gg GA H S1 S2.
-  apply (tc_form_rt teq D Sg F HD (Heq D HD) (Hrefl D) (Hsym D) (Htrans D) (Hunf D HD) HSg HSgw HF
+  apply (tc_form_rt teq D Sg F HD (Heq D SD SE) (Hrefl D) (Hsym D) (Htrans D) (Hunf D SD SE) HSg HSgw HF
                     g None A f f' (ctx_map g) rs Gg GA); auto.
   - intros s E. discriminate E.
   - intros x t L. exists t. split; [apply ctx_map_lookup; exact L|apply Hrefl].
@@ -183,7 +185,7 @@ Proof.
   assert (FS : Forall (fun p => is_Some (nty p)) (fn_params f)).
   { eapply Forall_impl; [|exact TP]. intros a [ta [Na _]]. exists ta. exact Na. }
   assert (HT' : typed D F (teq D) ∅ (params_ctx (fn_params f)) None (fun_rs f) t (fn_body f')).
-  { apply (tc_form_rt teq D Sg F HD (Heq D HD) (Hrefl D) (Hsym D) (Htrans D) (Hunf D HD) HSg HSgw HF
+  { apply (tc_form_rt teq D Sg F HD (Heq D SD SE) (Hrefl D) (Hsym D) (Htrans D) (Hunf D SD SE) HSg HSgw HF
                       (make_ctx (fn_params f)) None t (fn_body f) (fn_body f') (params_ctx (fn_params f)) (fun_rs f));
       auto.
     - apply (ctx_of_names_good _ _ Gps).
@@ -259,7 +261,7 @@ Proof.
   - (* functions *)
     apply Forall_forall. intros f' Hf'.
     destruct (Forall2_In_r _ _ _ _ FR Hf') as [f [Hf Rf]].
-    eapply (fun_static D Sg fs' HD GS WS HF f f'); eauto.
+    eapply (fun_static D Sg fs' SD SE GS WS HF f f'); eauto.
   - (* provider names *)
     unfold RtInit.all_providers. simpl.
     assert (EPs : map pr_providers ps' = map pr_providers ps).
@@ -298,7 +300,7 @@ Proof.
       destruct Hkv as [n0 [<- Hn0]]. simpl in Hm. subst n. simpl in Hi, Ht.
       destruct (Forall2_In_l _ _ _ _ PR Hq0) as [q0' [Hq0' [Eq0 [Et0 _]]]].
       exists q0', n0. simpl. rewrite Eq0, Et0. auto.
-    + apply (form_static D Sg fs' HD GS WS HF _ t (pr_body q) (pr_body q') {[ "" ]} Gg Gt Eb Rb Sb).
+    + apply (form_static D Sg fs' SD SE GS WS HF _ t (pr_body q) (pr_body q') {[ "" ]} Gg Gt Eb Rb Sb).
 Qed.
 
 Theorem tc_annotations_typed_thm p p' :
